@@ -2,11 +2,14 @@ mod common;
 mod kv;
 mod listen;
 mod mtu;
+mod pairs;
 mod statebuild;
 mod props;
 mod select;
+mod sim;
 mod util;
 mod wire;
+mod wirecheck;
 
 use std::time::Instant;
 
@@ -111,14 +114,43 @@ fn main() {
         println!("INCONCLUSIVE property={prop_for_watchdog} watchdog fired after {budget_s} s");
         std::process::exit(2);
     });
-    let Some(report) = props::run_property(&ctx) else {
+    let Some(mut report) = props::run_property(&ctx) else {
         eprintln!("unknown property {prop}");
         std::process::exit(2);
     };
+    // Replay tier: saved inputs of every finding recorded for this property (fixed ones must
+    // pass; known ones print their KNOWN-FINDING line).
+    report.subs.insert(0, regression_replays(&ctx));
     let code = finish(&ctx, report, started);
     std::process::exit(code);
 }
 
 fn dispatch_replay(ctx: &Ctx, sub: &str, case: &serde_json::Value) -> SubResult {
     props::replay_property(ctx, sub, case)
+}
+
+fn regression_replays(ctx: &Ctx) -> SubResult {
+    let mut out = SubResult { sub: "regression-replays".into(), ..Default::default() };
+    let dir = format!("{VERIF_DIR}/regressions");
+    let Ok(rd) = std::fs::read_dir(&dir) else { return out };
+    let mut files: Vec<_> = rd.filter_map(|e| e.ok()).map(|e| e.path()).filter(|p| p.extension().map(|x| x == "json").unwrap_or(false)).collect();
+    files.sort();
+    for path in files {
+        let Ok(text) = std::fs::read_to_string(&path) else { continue };
+        let Ok(doc) = serde_json::from_str::<serde_json::Value>(&text) else { continue };
+        if doc.get("property").and_then(|v| v.as_str()) != Some(ctx.prop.as_str()) {
+            continue;
+        }
+        let sub = doc.get("sub").and_then(|v| v.as_str()).unwrap_or("").to_string();
+        let case = doc.get("case").cloned().unwrap_or(serde_json::Value::Null);
+        let mut res = props::replay_property(ctx, &sub, &case);
+        for v in res.violations.iter_mut() {
+            v.replay_path = path.display().to_string();
+        }
+        out.tally.merge(std::mem::take(&mut res.tally));
+        out.tally.label("regression_file");
+        out.violations.extend(res.violations);
+        out.inconclusive.extend(res.inconclusive);
+    }
+    out
 }
